@@ -76,6 +76,7 @@ type State struct {
 	dead      bool
 	lastRes   map[string]Val // callee name -> result of its most recent call on this path
 	refFacts  map[string]bool // ref terms already known to be allocated (rootid < alloc pointer)
+	heapAlloc map[string]string // heap name -> allocation pointer when its current version was created (default alloc0)
 }
 
 func (s *State) clone() *State {
@@ -91,6 +92,12 @@ func (s *State) clone() *State {
 		n.touched[k] = v
 	}
 	n.calllog = append([]string(nil), s.calllog...)
+	if s.heapAlloc != nil {
+		n.heapAlloc = make(map[string]string, len(s.heapAlloc))
+		for k, v := range s.heapAlloc {
+			n.heapAlloc[k] = v
+		}
+	}
 	if s.refFacts != nil {
 		n.refFacts = make(map[string]bool, len(s.refFacts))
 		for k, v := range s.refFacts {
@@ -289,6 +296,7 @@ func (c *Ctx) setHeap(s *State, name, sort, term string) {
 	c.assume(s, fmt.Sprintf("(= %s %s)", n, term))
 	s.heap[name] = n
 	s.touched[name] = true
+	c.noteHeapVersion(s, name)
 }
 
 func (c *Ctx) havocHeap(s *State, name string) string {
@@ -297,7 +305,34 @@ func (c *Ctx) havocHeap(s *State, name string) string {
 	c.declConst(s, n, sort)
 	s.heap[name] = n
 	s.touched[name] = true
+	c.noteHeapVersion(s, name)
 	return n
+}
+
+// noteHeapVersion records the allocation pointer at the time the current version of a heap was created: every
+// reference stored in that version was allocated before it.
+func (c *Ctx) noteHeapVersion(s *State, name string) {
+	if s.heapAlloc == nil {
+		s.heapAlloc = map[string]string{}
+	}
+	s.heapAlloc[name] = c.allocTerm(s)
+}
+
+// heapBound: upper bound (exclusive) on the allocation ids of references read from the current version of a heap.
+func (c *Ctx) heapBound(s *State, heap map[string]string, name string) string {
+	if s == nil {
+		return "alloc0"
+	}
+	if heap != nil {
+		if _, ok := heap[name]; !ok {
+			return "alloc0" // entry version
+		}
+		return c.allocTerm(s)
+	}
+	if b, ok := s.heapAlloc[name]; ok {
+		return b
+	}
+	return "alloc0"
 }
 
 func fieldHeapName(owner string, field string, path string) string {
@@ -635,20 +670,36 @@ func (c *Ctx) loadAt(s *State, heap map[string]string, p Val, t types.Type) Val 
 		unsup("load through %T", p)
 		return ""
 	}
+	hname := func(cp comp) string {
+		switch x := p.(type) {
+		case LocV:
+			switch x.Kind {
+			case LocField:
+				return fieldHeapName(x.Field.Owner, x.Field.Name, cp.Path)
+			case LocElem:
+				return elemHeapName(t, cp.Path)
+			case LocCell:
+				return fieldHeapName("cell", typeName(t), cp.Path)
+			}
+		case Scalar:
+			return fieldHeapName("cell", typeName(t), cp.Path)
+		}
+		return ""
+	}
 	var v Val
 	switch t.Underlying().(type) {
 	case *types.Slice:
 		sv := SliceV{rd(cs[0]), rd(cs[1]), rd(cs[2]), rd(cs[3]), t}
-		c.allocatedFact(s, sv.Arr)
+		c.allocatedFactB(s, sv.Arr, c.heapBound(s, heap, hname(cs[0])))
 		v = sv
 	case *types.Interface:
 		iv := IfaceV{rd(cs[0]), rd(cs[1]), rd(cs[2]), t}
-		c.allocatedFact(s, iv.PRef)
+		c.allocatedFactB(s, iv.PRef, c.heapBound(s, heap, hname(cs[1])))
 		v = iv
 	default:
 		sc := Scalar{rd(cs[0]), cs[0].S, t}
 		if sc.S == SRef {
-			c.allocatedFact(s, sc.T)
+			c.allocatedFactB(s, sc.T, c.heapBound(s, heap, hname(cs[0])))
 		}
 		v = sc
 	}
@@ -834,16 +885,23 @@ func (c *Ctx) localUpdate(v Val, proj []string, nv Val) Val {
 
 // allocatedFact: a reference obtained by a load was stored earlier, hence allocated before the current allocation pointer.
 func (c *Ctx) allocatedFact(s *State, ref string) {
+	if s == nil {
+		return
+	}
+	c.allocatedFactB(s, ref, c.allocTerm(s))
+}
+
+func (c *Ctx) allocatedFactB(s *State, ref, bound string) {
 	if s == nil || ref == "rnil" || strings.Contains(ref, "!q") {
 		return // (terms mentioning a bound quantifier variable cannot be asserted at top level)
 	}
 	if s.refFacts == nil {
 		s.refFacts = map[string]bool{}
 	}
-	key := ref + "<" + s.allocBase
+	key := ref + "<" + bound
 	if s.refFacts[key] {
 		return
 	}
 	s.refFacts[key] = true
-	c.assume(s, fmt.Sprintf("(< (rootid %s) %s)", ref, c.allocTerm(s)))
+	c.assume(s, fmt.Sprintf("(< (rootid %s) %s)", ref, bound))
 }
